@@ -6,7 +6,8 @@
    holds the texts that start with the c-th character (0: the empty text); chunk
    100 holds NRand longer texts drawn with RandomElement (TLC -seed), chunk 200
    the texts of file InFile (repository YANG texts cut at random points), chunk
-   300 modules full of distinct string concatenations.                          *)
+   300 modules full of distinct string concatenations, chunk 400 complete modules
+   with one shape-correct but absurd argument each.                             *)
 EXTENDS YangLexer, Json, SequencesExt, FiniteSets, TLC
 CONSTANTS Alphabet, MaxLen, Variants, NRand, RandLen, InFile, NCatTexts, NCat
 VARIABLES chunk, done
@@ -59,6 +60,54 @@ CatBody(i, a, b) == IF a = b THEN Piece(CatStmt(i, a))
 CatText(i) == Join2(Join2(Piece(S2C("module m {") \o <<LF>> \o S2C("  namespace \"urn:m\";") \o <<LF>> \o S2C("  prefix m;") \o <<LF>>),
                           CatBody(i, 1, NCat)), Piece(S2C("}") \o <<LF>>))
 LightVec(p) == [text |-> p.text, variant |-> 1, lines |-> Append(p.lines, 0), bytes |-> p.bytes, nitems |-> 0, lastItem |-> "n/a", endsIn |-> "n/a", inBlock |-> FALSE]
+\* chunk 400: totality reaches the argument validators.  Complete, otherwise valid modules in which one argument with inner
+\* structure (dates, ranges, lengths, integers, booleans, enumerated keywords, node identifiers and paths, key lists,
+\* patterns, versions, URIs, prefixes) is shape-correct or nearly so but absurd in value.  Only the geometry is computed;
+\* what is required of Parse is what C07 requires of every text.
+HoleHead == S2C("module m {") \o <<LF>> \o S2C("  namespace \"urn:m\"; prefix m;") \o <<LF>>
+Holes == << <<"  revision \"", "\";">>,
+            <<"  import x { prefix x; revision-date \"", "\"; }">>,
+            <<"  include s { revision-date \"", "\"; }">>,
+            <<"  yang-version \"", "\";">>,
+            <<"  leaf l { type int32 { range \"", "\"; } }">>,
+            <<"  leaf l { type decimal64 { fraction-digits 2; range \"", "\"; } }">>,
+            <<"  leaf l { type string { length \"", "\"; } }">>,
+            <<"  leaf l { type string { pattern \"", "\"; } }">>,
+            <<"  leaf l { type decimal64 { fraction-digits \"", "\"; } }">>,
+            <<"  leaf l { type enumeration { enum a { value \"", "\"; } } }">>,
+            <<"  leaf l { type bits { bit b { position \"", "\"; } } }">>,
+            <<"  leaf l { type leafref { path \"", "\"; } }">>,
+            <<"  leaf l { type instance-identifier { require-instance \"", "\"; } }">>,
+            <<"  leaf l { type string; mandatory \"", "\"; }">>,
+            <<"  leaf l { type string; config \"", "\"; }">>,
+            <<"  leaf l { type string; status \"", "\"; }">>,
+            <<"  leaf l { type string; must \"", "\"; when \"a\"; }">>,
+            <<"  leaf l { type string; default \"", "\"; units \"u\"; }">>,
+            <<"  leaf-list ll { type string; min-elements \"", "\"; }">>,
+            <<"  leaf-list ll { type string; max-elements \"", "\"; }">>,
+            <<"  leaf-list ll { type string; ordered-by \"", "\"; }">>,
+            <<"  list li { key \"", "\"; leaf a { type string; } }">>,
+            <<"  list li { key a; unique \"", "\"; leaf a { type string; } }">>,
+            <<"  container \"", "\";">>,
+            <<"  leaf l { type \"", "\"; }">>,
+            <<"  container c { if-feature \"", "\"; }">>,
+            <<"  identity i { base \"", "\"; }">>,
+            <<"  augment \"", "\" { leaf a { type string; } }">>,
+            <<"  deviation \"", "\" { deviate not-supported; }">>,
+            <<"  deviation /m:c { deviate \"", "\"; }">>,
+            <<"  container c { uses g { refine \"", "\" { description d; } } }">>,
+            <<"  extension e { argument a { yin-element \"", "\"; } }">>,
+            <<"  belongs-to \"", "\" { prefix b; }">> >>
+Absurd == << "", "0", "00", "13", "99", "0000", "-0", "-1", "+5", "007", "0x10", "1e9", "1.", ".5", "1.5", "18446744073709551616",
+             "99999999999999999999999999999999", "-99999999999999999999999999999999", "2020-13-10", "2019-00-01", "2020-02-30", "0000-00-00",
+             "9999-99-99", "2020-1-1", "20200-01-01", "2020-01-32", "2020-01-00", "1..", "..", "..1", "|", "1|", "|1", "1..2|", "5..1", "min..max",
+             "max..min", "min", "max", "1 .. 2 | 3", "1..2..3", "true", "false", "TRUE", "1", "unbounded", "current", "obsolete", "user", "system",
+             "add", "replace", "a b", "a  b", " a", "a ", "/", "//", "/a", "/a:", ":", "a:", ":a", "a:b:c", "a/", "../", "../../a", "/m:c/m:d",
+             "[", "]", "(", ")", "[a", "a[b=", "(a|", "*", "+", "?", "{", "a{2,1}", "[z-a]", ".", "..", "1.1", "1", "2", "1.0", "xml", "XMLa", "-a", "9a",
+             "a.b-c_d", "urn:", "http://", "x y z" >>
+HoleText(h, v) == HoleHead \o S2C(h[1]) \o S2C(v) \o S2C(h[2]) \o <<LF>> \o S2C("}") \o <<LF>>
+PlainLight(t) == [text |-> t, variant |-> 1, lines |-> LineLens(t), bytes |-> SumWidth(t, 1, Len(t)), nitems |-> 0, lastItem |-> "n/a", endsIn |-> "n/a", inBlock |-> FALSE]
+AbsurdCases(u_) == {PlainLight(HoleText(Holes[i], Absurd[j])) : i \in 1..Len(Holes), j \in 1..Len(Absurd)}
 \* chunk 200: given texts (repository YANG cut at random points), file InFile: records [text]
 Given(u_) == ndJsonDeserialize(InFile)
 
@@ -66,8 +115,9 @@ Cases == IF chunk = 0 THEN {Vec(<< >>, 1)}
          ELSE IF chunk = 100 THEN LET R == RandTexts(0) IN {Vec(R[k], 1) : k \in 1..NRand}
          ELSE IF chunk = 200 THEN {Vec(Given(0)[k].text, 1) : k \in 1..Len(Given(0))}
          ELSE IF chunk = 300 THEN {LightVec(CatText(i)) : i \in 1..NCatTexts}
+         ELSE IF chunk = 400 THEN AbsurdCases(0)
          ELSE {Vec(t, v) : t \in TextsFrom(Alpha[chunk]), v \in Variants}
-GInit == chunk \in (0..Len(Alpha)) \cup {100, 200, 300} /\ done = FALSE
+GInit == chunk \in (0..Len(Alpha)) \cup {100, 200, 300, 400} /\ done = FALSE
 GNext == /\ ~done /\ done' = TRUE /\ UNCHANGED chunk
          /\ ndJsonSerialize("vec_" \o ToString(chunk) \o ".ndjson", SetToSeq(Cases))
 =============================================================================
